@@ -203,12 +203,19 @@ impl Server {
         let more = newpos < pm.n || (pm.extra_empty_last_page && pm.supports_paging && take > 0 && newpos == pm.n);
         if pm.supports_paging {
             let ck = if more {
-                let len = 1 + self.paging_rng.usize(64);
-                let mut c = self.paging_rng.bytes(len);
-                // make the cookie unique
-                c.extend_from_slice(format!("#{}", self.paging_pos.len()).as_bytes());
-                self.paging_pos.insert(c.clone(), newpos);
-                c
+                if pm.constant_cookie {
+                    // a slot handle: the same bytes on every page of this search
+                    let c = format!("slot:{token}").into_bytes();
+                    self.paging_pos.insert(c.clone(), newpos);
+                    c
+                } else {
+                    let len = 1 + self.paging_rng.usize(64);
+                    let mut c = self.paging_rng.bytes(len);
+                    // make the cookie unique
+                    c.extend_from_slice(format!("#{}", self.paging_pos.len()).as_bytes());
+                    self.paging_pos.insert(c.clone(), newpos);
+                    c
+                }
             } else {
                 vec![]
             };
@@ -304,7 +311,7 @@ impl Server {
                 self.hostile_spliced = true;
                 let gap = h.gap_after_ms;
                 let bytes = match h.nest {
-                    Some((depth, id, in_controls)) => nested_frame(depth, id, in_controls),
+                    Some((depth, id, in_controls)) => nested_frame(depth, id, in_controls, h.nest_tag),
                     None => h.bytes.clone(),
                 };
                 world::with(|w| {
@@ -361,7 +368,8 @@ impl Server {
 
 /// An LDAPMessage envelope for `id` whose protocolOp (application 1, or the controls element)
 /// contains SEQUENCEs nested `depth` deep.
-pub fn nested_frame(depth: u32, id: i64, in_controls: bool) -> Vec<u8> {
+pub fn nested_frame(depth: u32, id: i64, in_controls: bool, nest_tag: u8) -> Vec<u8> {
+    let nest_tag = if nest_tag == 0 { 0x30 } else { nest_tag };
     // sizes from the inside out, headers from the outside in (linear)
     let depth = depth.max(1) as usize;
     let mut sizes = vec![0usize; depth]; // sizes[k] = encoded size of the element at nesting level k
@@ -374,7 +382,7 @@ pub fn nested_frame(depth: u32, id: i64, in_controls: bool) -> Vec<u8> {
     }
     let mut inner: Vec<u8> = Vec::with_capacity(sizes[0]);
     for k in 0..depth - 1 {
-        inner.push(0x30);
+        inner.push(nest_tag);
         ber::write_len(&mut inner, sizes[k + 1], 0);
     }
     inner.extend_from_slice(&[0x30, 0x00]);
@@ -460,10 +468,14 @@ impl Future for Server {
                             match msg::decode_request(&tlv, &mut strict) {
                                 Some(req) => {
                                     this.arrival += 1;
-                                    // the request's own token if the plan knows it, otherwise its arrival index
-                                    let token = match request_token(&req.op) {
-                                        Some(t) if this.plan.by_token.contains_key(&t) || !this.plan.by_token.contains_key(&format!("#{}", this.arrival - 1)) => t,
-                                        _ => format!("#{}", this.arrival - 1),
+                                    // Families that key their plans by arrival ("#n") generate their arguments freely: a value
+                                    // that happens to read like another call's key must not be taken for a token. So the
+                                    // arrival key wins where the plan has one; otherwise the token the request carries.
+                                    let arrival_key = format!("#{}", this.arrival - 1);
+                                    let token = if this.plan.by_token.contains_key(&arrival_key) {
+                                        arrival_key
+                                    } else {
+                                        request_token(&req.op).unwrap_or(arrival_key)
                                     };
                                     world::with(|w| {
                                         w.srv_ids_by_token.insert(token.clone(), req.id as i32);
